@@ -229,12 +229,12 @@ def emit_region(text, probe):
     out = []
     for n, s in enumerate(segs):
         if s.prov == "probe":
-            out.append(" assert(false); /*@P*/ ")
+            out.append(" if vf_nondet() { assert(false); } /*@P*/ ")
             n_probe += 1
             continue
         out.append(s.text)
         if bo is not None and n == bo:
-            out.append(" assert(false); /*@P*/ ")
+            out.append(" if vf_nondet() { assert(false); } /*@P*/ ")
             n_probe += 1
     return "".join(out), n_probe
 
@@ -309,7 +309,7 @@ class Unit:
                 i = j + 1
                 continue
             if self.probe and "/*@probe*/" in ln:
-                ln = ln.replace("/*@probe*/", " assert(false); /*@P*/ ")
+                ln = ln.replace("/*@probe*/", " if vf_nondet() { assert(false); } /*@P*/ ")
             self.lines.append(ln)
             i += 1
 
